@@ -84,7 +84,7 @@ def shards(tier):
 
 
 def floors(tier):
-    f = {"cases": 8000, "validator_for_checked": 8000, "validate_checked": 8000, "explicit_cls_checked": 2000, "cli_checked": 100, "cli_explicit_validator_checked": 50,
+    f = {"cases": 8000, "validator_for_checked": 8000, "validate_checked": 8000, "explicit_cls_checked": 2000, "cli_checked": 100, "cli_explicit_validator_checked": 50, "cli_several_instances_checked": 40,
          "warnings_checked": 1000, "histories_with_registrations": 30, "registrations": 80, "distinguished_pairs": 6,
          "model_confirms_disagreement": 6, "missing_dollar_schema_in_dict_subclass": 500}
     for s in ("exact#", "exact", "unknown-uri", "non-uri", "missing", "boolean-schema"):
@@ -304,6 +304,17 @@ def check_dispatch(rec, rng, registered, history, scratch, future=()):
                     json.dump(inst, f)
                 out, err = io.StringIO(), io.StringIO()
                 argv = ["-i", ip, "--error-format", "\x1e{error.message}\x1f", sp]
+                # ... sometimes with a second and third instance after it (the status is about all of them)
+                more = []
+                if rng.random() < 0.5:
+                    for j in range(rng.randrange(1, 3)):
+                        inst_j = rng.choice(PAIRS)[1]
+                        ipj = os.path.join(scratch, "j%d.json" % rng.randrange(10 ** 9))
+                        with open(ipj, "w") as f:
+                            json.dump(inst_j, f)
+                        more.append((ipj, inst_j))
+                        argv = ["-i", ipj] + argv if rng.random() < 0.3 else argv[:2] + ["-i", ipj] + argv[2:]
+                    rec.count("cli_several_instances_checked")
                 cli_cls = want_cls
                 if rng.random() < 0.4:
                     # an explicitly given class always wins, in the CLI too
@@ -319,9 +330,11 @@ def check_dispatch(rec, rng, registered, history, scratch, future=()):
                         code = "exc:" + type(e).__name__
                 os.remove(sp)
                 os.remove(ip)
+                for ipj, _ in more:
+                    os.remove(ipj)
                 try:
                     cli_cls.check_schema(schema)
-                    msgs = sorted(e.message for e in cli_cls(schema).iter_errors(inst))
+                    msgs = sorted(e.message for x_ in [inst] + [m[1] for m in more] for e in cli_cls(schema).iter_errors(x_))
                 except X.SchemaError as e:
                     msgs = [e.message]
                 except Exception:
